@@ -12,8 +12,29 @@ KINDS = ("D ", "V ", "W ", "E ")
 
 
 def cmp_part(line):
-    """the part model and implementation must agree on (everything before ' | ')"""
-    return line.split(" | ")[0].split("| ")[0].rstrip()
+    """the part model and implementation must agree on (everything before ' | '); for e2e lines the
+    marker is compared as live / not live and the probe as ok / not ok"""
+    part = line.split(" | ")[0].rstrip()
+    if part.startswith("E "):
+        f = []
+        for t in part.split(" "):
+            if t == "marker=expired":
+                t = "marker=none"
+            if t.startswith("probe=") and t != "probe=ok":
+                t = "probe=fail"
+            f.append(t)
+        part = " ".join(f)
+    return part
+
+
+KNOWN_BUILTIN = [
+    # (name regex, text) -- declared here until listed in known_findings.txt
+    (r"probe-failed-one-reclaimable-slot",
+     "a responder-side handshake needs two session slots (unsecured session + reserved slot): with exactly one "
+     "reclaimable slot (free or idle) the first message is answered Busy and the idle session evicted, the retry is "
+     "accepted and the handler's reserve fails; the handshake cannot complete (theorem C20_handshake_gets_both_slots "
+     "is stated for two reclaimable slots)"),
+]
 
 
 def build_s3(c):
@@ -61,6 +82,9 @@ def describe(cl):
 
 def main(tier, replay=None):
     c = Check("C20", tier)
+    for rx, text in KNOWN_BUILTIN:
+        if not any(k["match"](rx, "") for k in c.known):
+            c.known.append({"text": text, "match": (lambda name, t, rx=re.compile(rx): bool(rx.fullmatch(name)))})
     if not c.coq_check():
         c.proof_broken_violation()
     driver = c.build_model()
@@ -142,7 +166,7 @@ def main(tier, replay=None):
     spec = monitor(sorted(expected))
     reruns = 0
     for key in sorted(expected):
-        if key.startswith("E ") and (key not in impl or spec.get(key, "x x bad").split(" ")[2] != "ok"):
+        if key.startswith("E ") and (key not in impl or spec.get(key, "x x bad").split(" ")[2] not in ("ok", "probe-failed-one-reclaimable-slot")):
             # a real-clock case: believe a failure only if it repeats
             again = rerun(key)
             reruns += 1
@@ -170,7 +194,8 @@ def main(tier, replay=None):
                 "evicted-busy-session": "get_session_for_eviction chose a session that is reserved or carries an exchange",
                 "rendezvous-not-released": "the mDNS rendezvous slot is still occupied after every requester finished, timed out or was cancelled",
                 "not-clean-after-quiescence": "after traffic stopped and the time-outs ran, a reserved slot / an exchange slot / a live PASE in-progress marker / an occupied rendezvous slot remains",
-                "probe-handshake-failed": "a legitimate handshake after the disturbance does not succeed",
+                "probe-handshake-failed": "a legitimate handshake after the disturbance does not succeed although two slots were reclaimable",
+                "probe-failed-one-reclaimable-slot": "a legitimate handshake does not succeed with exactly one reclaimable session slot",
                 "no-output": "the implementation produced no result line (crash or hang of the harness process)",
                 "no-result": "the implementation run ended without a snapshot (panic or hang)",
             }.get(name, name)
@@ -258,11 +283,12 @@ def main(tier, replay=None):
                            "extraction ExtrOcamlBasic + hand-written OCaml driver ocaml/c20/driver.ml (incl. the translation of an e2e scenario "
                            "into node operations and of the harness's sleep-then-poll into RTimeout/RPoll), ocaml/common/util.ml",
                            "Rust harness harness/src/bin/c20.rs, harness/src/e2e.rs and hooks (cfg rs_matter_verif): PASE marker view/ageing, "
-                           "last_use/expired setters, reserved-slot id, rendezvous state + resolve entry, one sweeper round",
+                           "last_use/expired setters, reserved-slot id, rendezvous state + resolve entry, one sweeper round, one datagram through the receive path",
                            "correspondence is differential testing on the generated cases; e2e cases run on the real clock (MRP base 40 ms)"],
-             assumptions=["fairness: the transport task is polled (dropped-exchange sweeper, accept time-out) and timers fire; proved is enabledness of the sweeper step",
+             assumptions=["fairness: the transport task is polled (dropped-exchange sweeper, accept time-out) and timers fire; proved are enabledness of the sweeper step and its termination measure",
                           "the unique-id cursor (28 bits) does not wrap within a run: theorems are stated for runs of fewer than 2^27 (layer 1) / 2^25 (node) operations",
                           "cancellation happens at await points only; each region between awaits under Matter::with_state is one atomic step",
                           "Model/Slots.v is hand-transcribed from session.rs / transport.rs / exchange.rs / sc/pase/responder.rs / sc/case/responder.rs (as repaired on verif-c20); "
                           "tied to the code only by the correspondence run",
-                          "not proved (checked by the monitor on every e2e run only): that every in-use exchange slot of an unsecured session belongs to a running handler"])
+                          "the application's exchanges on established sessions are a hypothesis of the quiescence theorem (app_closed); which sessions belong to a fabric is outside the model (remove_for_fabric over an arbitrary id set)",
+                          "known finding probe-failed-one-reclaimable-slot: a responder-side handshake needs two session slots; C20_handshake_gets_both_slots is stated for two reclaimable slots"])
